@@ -15,6 +15,7 @@ EXPLANATION = (
     'whose fn-pointer call sits on the no-errors edge; has_errors inspects kind, never level. Decides these clauses on all '
     'paths, not the run-time behaviour of particular inputs.')
 THOROUGH_RERUN = ['release']     # the same rules over the release build (no debug assertions): verified clean on the pinned tree
+WITNESSES = ['DiagnosticLevelsAreNotWritable']     # thorough tier: engines/witness (T12)
 ASSUMPTIONS = ['rustc type checking and MIR construction', 'std::process / std::fs are the only ways slicec creates processes or files',
                'clap parses the command line as declared']
 
